@@ -573,4 +573,433 @@ theorem ensureChain_inside (root : Path) (L : List Path) (hL : ∀ s ∈ L, Harm
     · subst hd; exact ⟨isAbs_join2 hc s, hin'⟩
     · exact ih (fun x hx => hL x (by simp [hx])) _ (isAbs_join2 hc s) hin' d hd
 
+/-! ### The tree of registered children of a `DirStructure` -/
+
+/-- What `EnsureAbsPath` knows after its scope check passed: `Rel` succeeds and has only harmless elements. -/
+theorem scope_pass_rel {root dirPath r' : Path} (hr : isAbs root = true) (hres : resolve r' = resolve root)
+    (h47 : isAbs (r' ++ [47]) = true) (hpre : hasPrefix (clean dirPath) (r' ++ [47]) = true) :
+    ∃ rel, relOf root (clean dirPath) = some rel ∧ ∀ s ∈ splitSep rel, Harmless s := by
+  have habs : isAbs (clean dirPath) = true := by
+    have : (r' ++ [47]) <+: clean dirPath := by simpa [hasPrefix] using hpre
+    obtain ⟨rest, hrest⟩ := this
+    rw [← hrest]; exact isAbs_append h47 _
+  have hdp := isAbs_of_clean habs
+  have hcl := clean_abs hdp
+  rw [hcl] at hpre
+  have hpfx := resolve_prefix_of_hasPrefix (resolve_allNormal dirPath) hpre
+  rw [hres] at hpfx
+  obtain ⟨t, ht⟩ := hpfx
+  rw [hcl]
+  exact relOf_below hr ht.symm (resolve_allNormal dirPath)
+
+/-- The invariant of the tree: node 0 is the only node without parent and has the root path; every other
+    node hangs below an earlier node and its path is `Join(parent.Path, key)` — the name it is registered under. -/
+def DWF (t : DTree) (root : Path) : Prop :=
+  0 < t.length ∧ t.pathOf 0 = root ∧
+  (∀ i n, t[i]? = some n → n.parent = none → i = 0) ∧
+  (∀ i n, t[i]? = some n → ∀ p, n.parent = some p → p < i ∧ n.path = join2 (t.pathOf p) n.key)
+
+theorem dwf_new (root : Path) (perm : Nat) : DWF (newDirStructure root perm) root := by
+  refine ⟨by simp [newDirStructure], by simp [newDirStructure, DTree.pathOf], ?_, ?_⟩
+  · intro i n h _
+    cases i with
+    | zero => rfl
+    | succ j => simp [newDirStructure] at h
+  · intro i n h p hp
+    cases i with
+    | zero => simp [newDirStructure] at h; subst h; simp at hp
+    | succ j => simp [newDirStructure] at h
+
+theorem findChildFrom_spec {h : Nat} {name : Path} {l : List DNode} {i c : Nat}
+    (hf : findChildFrom h name i l = some c) :
+    ∃ j n, c = i + j ∧ l[j]? = some n ∧ n.parent = some h ∧ n.key = name := by
+  induction l generalizing i with
+  | nil => simp [findChildFrom] at hf
+  | cons a rest ih =>
+    unfold findChildFrom at hf
+    split at hf
+    · rename_i hc
+      cases hf
+      exact ⟨0, a, by simp, by simp, hc.1, hc.2⟩
+    · obtain ⟨j, n, hj, hn, hp, hk⟩ := ih hf
+      exact ⟨j + 1, n, by omega, by simpa using hn, hp, hk⟩
+
+theorem findChild_spec {t : DTree} {h c : Nat} {name : Path} (hf : findChild t h name = some c) :
+    ∃ n, t[c]? = some n ∧ n.parent = some h ∧ n.key = name := by
+  obtain ⟨j, n, hj, hn, hp, hk⟩ := findChildFrom_spec hf
+  exact ⟨n, by simpa [hj] using hn, hp, hk⟩
+
+theorem pathOf_append_lt {t : DTree} {p : Nat} (hp : p < t.length) (x : DNode) : DTree.pathOf (t ++ [x]) p = t.pathOf p := by
+  simp [DTree.pathOf, List.getElem?_append_left hp]
+
+theorem pathOf_modify_perm (t : DTree) (c p : Nat) (perm : Nat) :
+    DTree.pathOf (t.modify c (fun n => { n with perm := perm })) p = t.pathOf p := by
+  unfold DTree.pathOf
+  rw [List.getElem?_modify]
+  by_cases hcp : c = p
+  · subst hcp
+    cases t[c]? <;> simp
+  · simp [hcp]
+
+/-- `ChildDir` keeps the invariant (for every name, every permission, every existing handle). -/
+theorem dwf_childDir {t : DTree} {root : Path} (hw : DWF t root) {h : Nat} (hh : h < t.length) (name : Path) (perm : Nat) :
+    DWF (childDir t h name perm).1 root := by
+  obtain ⟨hlen, hroot, hnone, hpar⟩ := hw
+  unfold childDir
+  split
+  · rename_i c hc
+    dsimp only
+    refine ⟨by simpa using hlen, by rw [pathOf_modify_perm]; exact hroot, ?_, ?_⟩
+    · intro i n hn hp
+      rw [List.getElem?_modify] at hn
+      cases hti : t[i]? with
+      | none => simp [hti] at hn
+      | some m =>
+        rw [hti] at hn
+        simp at hn
+        by_cases hci : c = i
+        · simp [hci] at hn; subst hn; exact hnone i m hti hp
+        · simp [hci] at hn; subst hn; exact hnone i m hti hp
+    · intro i n hn p hp
+      rw [List.getElem?_modify] at hn
+      cases hti : t[i]? with
+      | none => simp [hti] at hn
+      | some m =>
+        rw [hti] at hn
+        simp at hn
+        rw [pathOf_modify_perm]
+        by_cases hci : c = i
+        · simp [hci] at hn; subst hn; exact hpar i m hti p hp
+        · simp [hci] at hn; subst hn; exact hpar i m hti p hp
+  · dsimp only
+    refine ⟨by simp, by rw [pathOf_append_lt hlen]; exact hroot, ?_, ?_⟩
+    · intro i n hn hp
+      by_cases hi : i < t.length
+      · rw [List.getElem?_append_left hi] at hn
+        exact hnone i n hn hp
+      · have : i = t.length := by
+          have := (List.getElem?_eq_some_iff.mp hn).1
+          simp at this; omega
+        subst this
+        simp at hn
+        subst hn
+        simp at hp
+    · intro i n hn p hp
+      by_cases hi : i < t.length
+      · rw [List.getElem?_append_left hi] at hn
+        obtain ⟨h1, h2⟩ := hpar i n hn p hp
+        exact ⟨h1, by rw [pathOf_append_lt (by omega)]; exact h2⟩
+      · have : i = t.length := by
+          have := (List.getElem?_eq_some_iff.mp hn).1
+          simp at this; omega
+        subst this
+        simp at hn
+        subst hn
+        simp at hp
+        subst hp
+        exact ⟨hh, by rw [pathOf_append_lt hh]⟩
+
+theorem childDir_length_le (t : DTree) (h : Nat) (name : Path) (perm : Nat) : t.length ≤ (childDir t h name perm).1.length := by
+  unfold childDir
+  split <;> simp
+
+/-- "always start at the top" ends at node 0. -/
+theorem topOf_eq_zero {t : DTree} {root : Path} (hw : DWF t root) : ∀ (f h : Nat), h < f → h < t.length → topOf t f h = 0 := by
+  intro f
+  induction f with
+  | zero => intro h hf; omega
+  | succ f ih =>
+    intro h hf hl
+    unfold topOf
+    have hget : t[h]? = some t[h] := List.getElem?_eq_getElem hl
+    rw [hget]
+    dsimp only
+    cases hp : t[h].parent with
+    | none => exact hw.2.2.1 h _ hget hp
+    | some p =>
+      dsimp only
+      have := (hw.2.2.2 h _ hget p hp).1
+      exact ih p (by omega) (by omega)
+
+theorem ensureChainP_fst (perm : Nat) (cur : Path) (L : List Path) :
+    (ensureChainP perm cur L).map (·.1) = ensureChain cur L := by
+  induction L generalizing cur with
+  | nil => rfl
+  | cons d ds ih => simp [ensureChainP, ensureChain, ih]
+
+/-- Every directory `ensure` touches, starting at a node whose path is inside the root, is inside the root:
+    a registered child is only followed under a harmless key, and its path is then the parent's path
+    extended by that key. -/
+theorem ensureFrom_inside {t : DTree} {root : Path} (hw : DWF t root) (L : List Path) (hL : ∀ s ∈ L, Harmless s) :
+    ∀ h, isAbs (t.pathOf h) = true → resolve root <+: resolve (t.pathOf h) →
+      ∀ d ∈ ensureFrom t h L, Inside root d.1 := by
+  induction L with
+  | nil =>
+    intro h ha hin d hd
+    simp [ensureFrom] at hd
+    subst hd
+    exact ⟨ha, hin⟩
+  | cons s rest ih =>
+    intro h ha hin d hd
+    unfold ensureFrom at hd
+    simp only [List.mem_cons] at hd
+    rcases hd with hd | hd
+    · subst hd; exact ⟨ha, hin⟩
+    · cases hf : findChild t h s with
+      | none =>
+        rw [hf] at hd
+        dsimp only at hd
+        have hm : d.1 ∈ ensureChain (t.pathOf h) (s :: rest) := by
+          rw [← ensureChainP_fst (t.permOf h)]
+          exact List.mem_map_of_mem hd
+        exact ensureChain_inside root _ hL _ ha hin _ hm
+      | some c =>
+        rw [hf] at hd
+        dsimp only at hd
+        obtain ⟨n, hn, hp, hk⟩ := findChild_spec hf
+        have hpath : t.pathOf c = join2 (t.pathOf h) s := by
+          have := (hw.2.2.2 c n hn h hp).2
+          simp [DTree.pathOf, hn, this, hk]
+        have hs := hL s (by simp)
+        have hres : resolve (join2 (t.pathOf h) s) = stepSeg (resolve (t.pathOf h)) s := by
+          rw [resolve_join2 ha]
+          simp [resolveFrom, splitSep_of_not_mem (harmless_not_mem hs)]
+        refine ih (fun x hx => hL x (by simp [hx])) c (by rw [hpath]; exact isAbs_join2 ha s) ?_ d hd
+        rw [hpath, hres]
+        exact List.IsPrefix.trans hin (stepSeg_harmless hs)
+
+/-! ### The walk of `fstree.Query` on a file-system tree -/
+
+/-- `Rel(root, p)` for a cleaned absolute `p` below `root` denotes `p` again when resolved from `root`. -/
+theorem relOf_below_resolve {root : Path} (hr : isAbs root = true) {ns t : List Path} (hns : ns = resolve root ++ t)
+    (hn : ∀ x ∈ ns, Normal x) :
+    ∃ rel, relOf root (47 :: joinSep ns) = some rel ∧ resolveFrom (resolve root) rel = ns := by
+  have hclean : clean (47 :: joinSep ns) = 47 :: joinSep ns := by
+    rw [clean_abs rfl, resolve_cleanAbs hn]
+  unfold relOf
+  simp only [hclean, clean_abs hr]
+  by_cases heq : (47 :: joinSep ns) = 47 :: joinSep (resolve root)
+  · refine ⟨dot, by simp [heq], ?_⟩
+    have h1 : resolve (47 :: joinSep ns) = resolve (47 :: joinSep (resolve root)) := by rw [heq]
+    rw [resolve_cleanAbs hn, resolve_cleanAbs (resolve_allNormal root)] at h1
+    rw [h1]
+    simp [resolveFrom, splitSep, dot, stepSeg]
+  · have hnd : (47 :: joinSep (resolve root)) ≠ dot := by simp [dot]
+    simp only [heq, if_false, hnd]
+    have habs : ¬ (isAbs (47 :: joinSep (resolve root)) ≠ isAbs (47 :: joinSep ns)) := by simp [isAbs]
+    simp only [habs, if_false]
+    rw [relElems_cleanAbs (resolve_allNormal root), relElems_cleanAbs hn, hns, stripCommon_prefix]
+    refine ⟨joinSep t, by simp, ?_⟩
+    have ht : ∀ x ∈ t, Normal x := fun x hx => hn x (by simp [hns, hx])
+    by_cases hte : t = []
+    · subst hte
+      simp [joinSep, resolveFrom, splitSep, stepSeg]
+    · unfold resolveFrom
+      rw [splitSep_joinSep hte (fun x hx => normal_not_mem (ht x hx))]
+      rw [foldl_stepSeg_benign (fun x hx => Or.inr (ht x hx))]
+      congr 1
+      exact List.filter_eq_self.mpr (fun x hx => nonE_of_ne (ht x hx).1)
+
+/-- An entry of a directory: `Join(dir, name)` is absolute and leads one level below the directory. -/
+theorem join2_entry {dir name : Path} (hd : isAbs dir = true) (hn : Normal name) :
+    isAbs (join2 dir name) = true ∧ resolve (join2 dir name) = resolve dir ++ [name] := by
+  refine ⟨isAbs_join2 hd name, ?_⟩
+  rw [resolve_join2 hd]
+  simp [resolveFrom, splitSep_of_not_mem hn.2.2.2, stepSeg_normal hn]
+
+/-- What is to be shown about a (partial) walk: every access is inside the base path, and every delivered key
+    is the name, relative to the base path, of a file that was read — resolving the key from the base
+    directory leads to that file. -/
+def WalkGood (base : Path) (r : WalkRes) : Prop :=
+  (∀ a ∈ r.acc, Inside base a.path) ∧
+  (∀ k ∈ r.keys, ∃ p, Access.read p ∈ r.acc ∧ relOf base p = some k ∧ resolveFrom (resolve base) k = resolve p)
+
+theorem walkGood_andThen {base : Path} {a b : WalkRes} (ha : WalkGood base a) (hb : WalkGood base b) :
+    WalkGood base (a.andThen b) := by
+  unfold WalkRes.andThen
+  split
+  · exact ha
+  · refine ⟨?_, ?_⟩
+    · intro x hx
+      simp only [List.mem_append] at hx
+      rcases hx with hx | hx
+      · exact ha.1 x hx
+      · exact hb.1 x hx
+    · intro k hk
+      simp only [List.mem_append] at hk
+      rcases hk with hk | hk
+      · obtain ⟨p, h1, h2, h3⟩ := ha.2 k hk
+        exact ⟨p, by simp [h1], h2, h3⟩
+      · obtain ⟨p, h1, h2, h3⟩ := hb.2 k hk
+        exact ⟨p, by simp [h1], h2, h3⟩
+
+theorem walkGood_accOnly {base : Path} {l : List Access} {st : Bool} (h : ∀ a ∈ l, Inside base a.path) :
+    WalkGood base { acc := l, keys := [], stop := st } :=
+  ⟨h, by intro k hk; simp at hk⟩
+
+/-- The callback on a file that lies inside the base path. -/
+theorem visitFile_good {base : Path} (hb : isAbs base = true) (pre p : Path) (ok : Bool) (hp : Inside base p)
+    (hcl : clean p = p) : WalkGood base (visitFile base pre p ok) := by
+  have hall : ∀ a ∈ [Access.stat p, Access.read p], Inside base a.path := by
+    intro a ha
+    simp at ha
+    rcases ha with ha | ha <;> (subst ha; exact hp)
+  unfold visitFile
+  split
+  · exact walkGood_accOnly (by intro a ha; simp at ha; subst ha; exact hp)
+  · cases hrel : relOf base p with
+    | none => exact walkGood_accOnly hall
+    | some key =>
+      dsimp only
+      split
+      · exact walkGood_accOnly hall
+      · split
+        · exact walkGood_accOnly hall
+        · refine ⟨hall, ?_⟩
+          intro k hk
+          simp at hk
+          subst hk
+          refine ⟨p, by simp, hrel, ?_⟩
+          -- p is a cleaned absolute path below base: Rel denotes it
+          obtain ⟨t, ht⟩ := hp.2
+          have hform : p = 47 :: joinSep (resolve p) := by
+            have := clean_abs hp.1
+            rw [hcl] at this; exact this
+          obtain ⟨rel, h1, h2⟩ := relOf_below_resolve hb ht.symm (resolve_allNormal p)
+          rw [← hform, hrel] at h1
+          cases h1
+          exact h2
+
+theorem clean_join2 {a : Path} (h : isAbs a = true) (b : Path) : clean (join2 a b) = join2 a b := by
+  rw [join2_abs h]; exact clean_clean (isAbs_append h _)
+
+/-- `filepath.walk` below a directory inside the base path stays inside the base path. -/
+theorem walkEnts_good {base : Path} (hb : isAbs base = true) (pre : Path) (e : Ents) :
+    e.NamesNormal → ∀ dirPath, isAbs dirPath = true → resolve base <+: resolve dirPath →
+      WalkGood base (walkEnts base pre dirPath e) := by
+  induction e with
+  | nil => intro _ _ _ _; exact walkGood_accOnly (by intro a ha; simp at ha)
+  | file name ok rest ih =>
+    intro hn dirPath hd hin
+    unfold walkEnts
+    obtain ⟨ha, hres⟩ := join2_entry hd hn.1
+    refine walkGood_andThen (visitFile_good hb pre _ ok ⟨ha, ?_⟩ (clean_join2 hd name)) (ih hn.2 dirPath hd hin)
+    rw [hres]; exact List.IsPrefix.trans hin (List.prefix_append _ _)
+  | dir name sub rest ihs ihr =>
+    intro hn dirPath hd hin
+    unfold walkEnts
+    obtain ⟨ha, hres⟩ := join2_entry hd hn.1
+    have hinp : resolve base <+: resolve (join2 dirPath name) := by
+      rw [hres]; exact List.IsPrefix.trans hin (List.prefix_append _ _)
+    have hall : ∀ a ∈ [Access.stat (join2 dirPath name), Access.list (join2 dirPath name)], Inside base a.path := by
+      intro a h
+      simp at h
+      rcases h with h | h <;> (subst h; exact ⟨ha, hinp⟩)
+    dsimp only
+    refine walkGood_andThen ?_ (ihr hn.2.2 dirPath hd hin)
+    split
+    · exact walkGood_andThen (walkGood_accOnly hall) (ihs hn.2.1 _ ha hinp)
+    · exact walkGood_accOnly hall
+
+theorem get_namesNormal {e : Ents} (h : e.NamesNormal) {name : Path} {sub : Ents} (hg : e.get name = some (.inr sub)) :
+    sub.NamesNormal := by
+  induction e with
+  | nil => simp [Ents.get] at hg
+  | file n ok rest ih =>
+    unfold Ents.get at hg
+    split at hg
+    · cases hg
+    · exact ih h.2 hg
+  | dir n s rest _ ihr =>
+    unfold Ents.get at hg
+    split at hg
+    · cases hg; exact h.2.1
+    · exact ihr h.2.2 hg
+
+theorem lookupSegs_namesNormal {segs : List Path} : ∀ {fs e : Ents}, fs.NamesNormal → lookupSegs fs segs = .dir e → e.NamesNormal := by
+  induction segs with
+  | nil => intro fs e h hl; simp [lookupSegs] at hl; subst hl; exact h
+  | cons s ss ih =>
+    intro fs e h hl
+    unfold lookupSegs at hl
+    cases hg : fs.get s with
+    | none => rw [hg] at hl; cases hl
+    | some v =>
+      rw [hg] at hl
+      cases v with
+      | inl ok => dsimp only at hl; split at hl <;> cases hl
+      | inr sub => exact ih (get_namesNormal h hg) hl
+
+/-- `filepath.Walk` from a walk root inside the base path. -/
+theorem walkTop_good {base : Path} (hb : isAbs base = true) (pre : Path) {fs : Ents} (hfs : fs.NamesNormal)
+    {wr : Path} (hw : Inside base wr) (hcl : clean wr = wr) : WalkGood base (walkTop fs base pre wr) := by
+  have h1 : ∀ a ∈ [Access.stat wr], Inside base a.path := by
+    intro a h; simp at h; subst h; exact hw
+  have h2 : ∀ a ∈ [Access.stat wr, Access.list wr], Inside base a.path := by
+    intro a h; simp at h; rcases h with h | h <;> (subst h; exact hw)
+  unfold walkTop
+  cases hl : fsLookup fs wr with
+  | absent => exact walkGood_accOnly h1
+  | notdir => exact walkGood_accOnly h1
+  | file ok => exact visitFile_good hb pre wr ok hw hcl
+  | dir e =>
+    dsimp only
+    split
+    · exact walkGood_andThen (walkGood_accOnly h2) (walkEnts_good hb pre e (lookupSegs_namesNormal hfs hl) wr hw.1 hw.2)
+    · exact walkGood_accOnly h2
+
+theorem isAbs_throughLastSep {p : Path} (h : isAbs p = true) : isAbs (throughLastSep p) = true := by
+  obtain ⟨t, rfl⟩ := isAbs_iff.mp h
+  unfold throughLastSep
+  have hrev : (47 :: t).reverse = t.reverse ++ [47] := by simp
+  rw [hrev, List.dropWhile_append]
+  split
+  · simp [isAbs]
+  · simp [isAbs]
+
+/-- `filepath.Dir` of an absolute path is a cleaned absolute path. -/
+theorem clean_dirOf {p : Path} (h : isAbs p = true) : clean (dirOf p) = dirOf p := by
+  unfold dirOf
+  exact clean_clean (isAbs_throughLastSep h)
+
+theorem dwf_dcall {t : DTree} {root : Path} (hw : DWF t root) (c : DCall) : DWF (dcall t c).1 root := by
+  cases c with
+  | childDir h name perm =>
+    simp only [dcall]
+    split
+    · rename_i hh; exact dwf_childDir hw hh name perm
+    · exact hw
+  | ensure h => exact hw
+  | ensureAbs h p => exact hw
+  | ensureRel h rel => exact hw
+  | ensureRelDir h names => exact hw
+
+theorem dwf_treeAfter {t : DTree} {root : Path} (hw : DWF t root) (calls : List DCall) : DWF (treeAfter t calls) root := by
+  induction calls generalizing t with
+  | nil => exact hw
+  | cons c cs ih => exact ih (dwf_dcall hw c)
+
+/-- `EnsureAbsPath` on any node of a well-formed tree: everything it touches is inside the root. -/
+theorem ensureAbsPathT_contained {t : DTree} {root : Path} (hw : DWF t root) (hr : isAbs root = true) {h : Nat}
+    (hh : h < t.length) (dirPath : Path) (dirs : List (Path × Nat)) (hok : ensureAbsPathT t h dirPath = .ok dirs) :
+    ∀ d ∈ dirs, Inside root d.1 := by
+  obtain ⟨r', hsl, hres, h47⟩ := slashed_root hr
+  unfold ensureAbsPathT at hok
+  rw [topOf_eq_zero hw _ h hh hh] at hok
+  dsimp only at hok
+  rw [hw.2.1, hsl] at hok
+  have h0a : isAbs (t.pathOf 0) = true := by rw [hw.2.1]; exact hr
+  have h0i : resolve root <+: resolve (t.pathOf 0) := by rw [hw.2.1]; exact List.prefix_refl _
+  split at hok
+  · cases hok
+    exact ensureFrom_inside hw [] (by simp) 0 h0a h0i
+  · split at hok
+    · cases hok
+    · rename_i hpre
+      simp at hpre
+      obtain ⟨rel, hrel, hharm⟩ := scope_pass_rel hr hres h47 hpre
+      rw [hrel] at hok
+      cases hok
+      exact ensureFrom_inside hw _ hharm 0 h0a h0i
+
 end PB.Paths
